@@ -67,10 +67,11 @@ func spatialReplay(args []string) int {
 	if err != nil {
 		return fail(err)
 	}
-	if areas.NX != areas.NY {
-		return fail(fmt.Errorf("the replay needs a square grid (nx=%d ny=%d)", areas.NX, areas.NY))
+	ncell := areas.NX
+	if areas.NY > ncell {
+		ncell = areas.NY
 	}
-	embeds, err := spatial.Embeddings(areas.NX)
+	embeds, err := spatial.Embeddings(ncell)
 	if err != nil {
 		return fail(err)
 	}
